@@ -326,6 +326,14 @@ func txUpdateAttrs(tx *bolt.Tx, id uint64, m map[string]interface{}) (map[string
 		}
 	}
 
+	// An id left without attributes has no entry: it is not one of its block's ids.
+	if len(attr) == 0 {
+		if err := tx.Bucket([]byte("attrs")).Delete(u64tob(id)); err != nil {
+			return nil, errors.Wrap(err, "deleting attrs")
+		}
+		return attr, nil
+	}
+
 	// Marshal and save new values.
 	buf, err := pilosa.EncodeAttrs(attr)
 	if err != nil {
